@@ -288,22 +288,53 @@ func ruleC14Dispatch(c *ctx.Ctx, r *core.Reporter) {
 	// integer -> string uses $encodeRune
 	t := hasTemplate(c, "funcContext.translateConversion", "isString(t)", func(t *tmpl.Template) bool { return strings.HasPrefix(t.Text, "$encodeRune(") })
 	r.Check(t != nil, "conv:int->string", "compiler/expressions.go", "string(rune) encodes the code point with $encodeRune")
+	// a 64-bit operand reaches $encodeRune as a whole (flattened), never as one of its 32-bit halves: a value
+	// beyond 32 bits is not a code point and converts to U+FFFD
+	{
+		halves := 0
+		whole := 0
+		for _, t := range usableTemplates(c) {
+			if t.Func == "funcContext.translateConversion" && strings.Contains(strings.Join(t.CasePath, "/"), "isString(t)") {
+				q := squash(t.Text)
+				if strings.HasSuffix(q, ".$low") || strings.HasSuffix(q, ".$high") {
+					halves++
+				}
+				if strings.HasPrefix(q, "$flatten64(") {
+					whole++
+				}
+			}
+		}
+		r.Check(halves == 0 && whole >= 1, "conv:int64->string:whole-value", "compiler/expressions.go", fmt.Sprintf("string(x) of a 64-bit integer flattens x before $encodeRune (templates taking a half: %d, flattening: %d)", halves, whole))
+	}
 	// range over string
 	var dec, adv bool
+	otherAdvance, otherHelpers := []string{}, map[string]bool{}
 	for _, t := range usableTemplates(c) {
 		if t.Func == "funcContext.translateStmt" && strings.Contains(strings.Join(t.CasePath, "/"), "type:*ast.RangeStmt/type:*types.Basic") {
 			if strings.Contains(t.Text, "= $decodeRune(") {
 				dec = true
 			}
-			if strings.Contains(t.Text, "+= ") && strings.Contains(t.Text, "[1];") {
-				adv = true
+			if strings.Contains(t.Text, "+= ") {
+				if strings.Contains(t.Text, "[1];") {
+					adv = true
+				} else {
+					otherAdvance = append(otherAdvance, t.Text)
+				}
+			}
+			for _, tk := range t.Tokens {
+				if tk.Kind == tmpl.TIdent && strings.HasPrefix(tk.Text, "$") && tk.Text != "$decodeRune" {
+					otherHelpers[tk.Text] = true
+				}
 			}
 		}
 	}
+	// no second way of stepping through a string: the width of an invalid or truncated sequence is 1, which
+	// only the decoder knows (the lead byte alone does not tell)
+	r.Check(len(otherAdvance) == 0 && len(otherHelpers) == 0, "range:single-stepping", "compiler/statements.go", fmt.Sprintf("every form of range over a string (with or without key and value) advances by the width $decodeRune returns; other advances: %v, other helpers: %v", otherAdvance, keysOf(otherHelpers)))
 	r.Check(dec, "range:decode", "compiler/statements.go", "range over a string decodes each rune with $decodeRune(ref, i)")
 	r.Check(adv, "range:advance-by-width", "compiler/statements.go", "the index advances by the width returned by $decodeRune (rune[1])")
 	// copy / append from strings
-	t = hasTemplate(c, "funcContext.translateBuiltin", `name:"copy"`, func(t *tmpl.Template) bool { return strings.HasPrefix(t.Text, "$copyString(") })
+	t = hasTemplate(c, "funcContext.translateBuiltin", `_:"copy"`, func(t *tmpl.Template) bool { return strings.HasPrefix(t.Text, "$copyString(") })
 	r.Check(t != nil, "copy:string", "compiler/expressions.go", "copy(dst, string) uses $copyString")
 	if needPrelude(c, r) {
 		if as := c.PreludeFunc("$appendSlice"); as != nil {
